@@ -33,6 +33,13 @@ Oracle (independent milestone tracker, written from the property statement and U
      TS1 12 ms, IDLE 2 ms, TS2 of a hot reset 12 ms; TS2 of polling/recovery 12 ms until the TS2 handshake condition
      "burst complete with a TS2 seen" is met -- afterwards the implementation may be in its untimed "send 16 more TS2"
      sub-state);
+ (3b) an exit from a timed signature in whose last three cycles no input was active (no pulse input, no reset, LFPS
+     counter constant; exits within 3 cycles of entry excluded) can only be a time-out: it must not come earlier than
+     ceil(timeout*f) - 1 cycles, and the signature that follows must not lie further into training (TSEQ/TS1/TS2/IDLE/U0/
+     LOOPBACK): every USB 3.2 7.5 time-out leads to Rx.Detect, SS.Inactive, eSS.Disabled or Compliance;
+ (3c) Polling.LFPS signature -> TSEQ signature [USB 3.2 7.5.4.3.2, the clause the state cites]: `lfps_cycles_sent` >= 16 in
+     the last LFPS cycle, and >= 4 more than its value when the first polling burst of this interval was received (the
+     second rule is not applied to a loosened LTSSM that saw a TS1 in the interval);
  (4) in U0 `enable_scrambling` = not(own request or partner request), own request = `disable_scrambling` at the entry
      of the last training (also compared with the `request_no_scrambling` output that is sent to the partner), partner
      request = `no_scrambling_requested` seen during the last training.
@@ -58,8 +65,11 @@ Polling.LFPS; RxEQ left on tseq_detected; Configuration.Exit -> U0; link_ready a
 Deviations from DESIGN.md: the frequencies are lower than the 1e5..1e6 Hz of the design (cost; the structure is the
 same); the TS2 signature merges a timed and an untimed sub-state, so only its handshake phase is timed.
 
-NOT judged: early time-outs (the statement says "no later than"); the number of LFPS bursts sent; which state a
-time-out leads to; `invert_rx_polarity`; liveness (a partner that does everything right is only *counted* as reaching
+NOT judged: the exact state a time-out leads to (only "not forward"); the "two bursts received" half of 7.5.4.3.2 (the
+LTSSM only sees a detector strobe); a minimum number of TS1 sent before Polling/Recovery.Active may be left (luna's
+`burst_minimum_met`: neither the statement nor USB 3.2 7.5.4.8 / 7.5.10.3 requires it -- the source comment says so itself
+-- so a correct implementation may leave on the first detection; the `det_before_burst` stimulus only makes sure that
+either behaviour is exercised); `invert_rx_polarity`; `enable_scrambling` outside U0; the LUNA_COMPLIANCE branch; liveness (a partner that does everything right is only *counted* as reaching
 U0: bins); the `power_on_reset` port (dead in luna: never read by LTSSMController nor driven by the link layer; per
 the attribute documentation power-on reset arrives through `in_usb_reset`, and the simulator's initial state is
 treated as "after a reset"); scrambling when a partner request arrives only at the very edges of the training or
